@@ -135,6 +135,56 @@ class Cfg:
         through = self.reachable_from(target)
         return {b for b in through if b not in without}
 
+    # ---- flow-insensitive def-use ----------------------------------------
+    @staticmethod
+    def base(place):
+        return int(place.split("|")[0])
+
+    def derived_locals(self, seeds):
+        """Locals whose value may derive from any local in `seeds` (through assignments, refs, casts,
+        aggregates and call arguments -> call destinations). Flow-insensitive fixpoint."""
+        d = set(seeds)
+        changed = True
+        while changed:
+            changed = False
+            for b in self.blocks:
+                for st in b["s"]:
+                    if "ops" not in st:
+                        continue
+                    if any("p" in o and self.base(o["p"]) in d for o in st["ops"]):
+                        t = self.base(st["d"])
+                        if t not in d:
+                            d.add(t); changed = True
+                t = b["term"]
+                if t["k"] == "call":
+                    if any("p" in o and self.base(o["p"]) in d for o in t["args"]):
+                        x = self.base(t["d"])
+                        if x not in d:
+                            d.add(x); changed = True
+        return d
+
+    def call_dest(self, i):
+        return self.base(self.blocks[i]["term"]["d"])
+
+    def try_branches_on(self, locals_):
+        """Blocks calling Try::branch with an argument among `locals_` -> (block, continue bb, break bb)."""
+        out = []
+        for i, t in self.calls():
+            if t.get("fname") == "branch" and any("p" in o and self.base(o["p"]) in locals_ for o in t["args"]):
+                nxt = t.get("t")
+                for b, adt, tg, other, place, rest in self.discr_switches():
+                    if b == nxt and adt.endswith("ControlFlow"):
+                        out.append((i, tg.get("Continue", other), tg.get("Break", other)))
+        return out
+
+    def without_error_edges(self):
+        """Successor map with every `?`-propagation (ControlFlow::Break) edge removed."""
+        succ = [list(s) for s in self.succ_nounwind]
+        for b, adt, tg, other, place, rest in self.discr_switches():
+            if adt.endswith("ControlFlow") and "Break" in tg:
+                succ[b] = [x for x in succ[b] if x != tg["Break"] or x == tg.get("Continue")]
+        return succ
+
     def line(self, i):
         return self.blocks[i]["term"].get("ln")
 
